@@ -6,6 +6,9 @@ import (
 	"fmt"
 	"io"
 	"math/rand"
+	"time"
+
+	"github.com/nspcc-dev/dbft/timer"
 )
 
 func auxMain(w *bufio.Writer, cmd string, a []string) bool {
@@ -68,5 +71,92 @@ func quorumCmd(w *bufio.Writer, seed int64, tier string) {
 	}
 }
 
-func timerCmd(w *bufio.Writer, seed int64, n int) {}
-func refCmd(w *bufio.Writer, seed int64, n int)   {}
+// timerCmd drives the real timer.Timer through seeded Reset/Extend/sleep/read sequences (n sequences, 16 at a time) and
+// prints, per operation, the monotonic time just before it (ns since the start of the sequence) and what a non-blocking
+// receive on C() returned. The extracted Coq timer model replays the same sequence (driver --timer).
+func timerCmd(w *bufio.Writer, seed int64, n int) {
+	type res struct{ lines []string }
+	out := make([]res, n)
+	sem := make(chan struct{}, 16)
+	done := make(chan int, n)
+	for i := 0; i < n; i++ {
+		go func(i int) {
+			sem <- struct{}{}
+			defer func() { <-sem; done <- i }()
+			rng := rand.New(rand.NewSource(runSeed(seed^0x7157, i)))
+			t := timer.New()
+			start := time.Now()
+			at := func() int64 { return int64(time.Since(start)) }
+			var ls []string
+			ms := func(k int) time.Duration { return time.Duration(k) * time.Millisecond }
+			read := func() {
+				a0 := at()
+				select {
+				case <-t.C():
+					ls = append(ls, fmt.Sprintf("READ %d %d 1 %d %d", a0, at(), t.Height(), t.View()))
+				default:
+					ls = append(ls, fmt.Sprintf("READ %d %d 0 %d %d", a0, at(), t.Height(), t.View()))
+				}
+			}
+			reset := func(d time.Duration) {
+				h, v := uint32(rng.Intn(5)), byte(rng.Intn(3))
+				a0 := at()
+				t.Reset(h, v, d)
+				ls = append(ls, fmt.Sprintf("RESET %d %d %d %d %d", a0, at(), h, v, int64(d)))
+			}
+			extend := func(d time.Duration) {
+				a0 := at()
+				t.Extend(d)
+				ls = append(ls, fmt.Sprintf("EXTEND %d %d %d", a0, at(), int64(d)))
+			}
+			sleep := func(d time.Duration) { time.Sleep(d); ls = append(ls, fmt.Sprintf("SLEEP %d", int64(d))) }
+			switch rng.Intn(4) {
+			case 0: // expired and unread, then extended in two steps whose partial sums straddle the elapsed time
+				d := ms(5 + rng.Intn(20))
+				reset(d)
+				sleep(d + ms(40+rng.Intn(40)))
+				el := time.Since(start)
+				e := el - d - ms(10)
+				if e < ms(1) {
+					e = ms(1)
+				}
+				extend(e)
+				read2 := rng.Intn(2) == 0
+				extend(ms(30 + rng.Intn(30)))
+				read()
+				if read2 {
+					sleep(ms(10))
+					read()
+				}
+				sleep(ms(150))
+				read()
+			default:
+				for k := 0; k < 8+rng.Intn(8); k++ {
+					switch rng.Intn(5) {
+					case 0:
+						reset([]time.Duration{0, ms(5), ms(15), ms(30), ms(60)}[rng.Intn(5)])
+					case 1:
+						extend([]time.Duration{0, ms(5), ms(20), ms(45)}[rng.Intn(4)])
+					case 2:
+						sleep(ms(1 + rng.Intn(35)))
+					default:
+						read()
+					}
+				}
+				sleep(ms(130))
+				read()
+				read()
+			}
+			out[i] = res{ls}
+		}(i)
+	}
+	for i := 0; i < n; i++ {
+		<-done
+	}
+	for i, r := range out {
+		fmt.Fprintf(w, "SEQ %d\n", i)
+		for _, l := range r.lines {
+			fmt.Fprintln(w, l)
+		}
+	}
+}
